@@ -250,7 +250,9 @@ pub assume_specification<T, F: FnOnce(T) -> bool + core::marker::Destruct> [std:
     ensures match o { Some(x) => f.ensures((x,), r), None => r };
 pub assume_specification<T: core::marker::Destruct, P: FnOnce(&T) -> bool + core::marker::Destruct> [std::option::Option::<T>::filter] (o: Option<T>, p: P) -> (r: Option<T>)
     requires o matches Some(x) ==> p.requires((&x,)),
-    ensures match o { Some(x) => (r == Some(x) && p.ensures((&x,), true)) || (r is None && p.ensures((&x,), false)), None => r is None };
+    ensures match o { Some(x) => (r == Some(x) && p.ensures((&x,), true)) || (r is None && p.ensures((&x,), false)), None => r is None },
+        // the predicate returned SOME boolean for the element, and the result follows it
+        o is Some ==> exists|__b: bool| p.ensures((&o->Some_0,), __b) && r == (if __b { o } else { None::<T> });
 pub assume_specification<T: core::marker::Destruct, F: FnOnce() -> Option<T> + core::marker::Destruct> [std::option::Option::<T>::or_else] (o: Option<T>, f: F) -> (r: Option<T>)
     requires o is None ==> f.requires(()),
     ensures match o { Some(x) => r == o, None => f.ensures((), r) };
